@@ -19,6 +19,7 @@ import (
 	"github.com/trustbloc/sidetree-core-go/pkg/api/protocol"
 	"github.com/trustbloc/sidetree-core-go/pkg/api/txn"
 	"github.com/trustbloc/sidetree-core-go/pkg/batch"
+	"github.com/trustbloc/sidetree-core-go/pkg/versions/1_0/operationparser"
 
 	"verifharness/hx"
 	"verifharness/ref"
@@ -55,8 +56,9 @@ type inject struct {
 type schedule struct {
 	Ops     []schedOp
 	Max     uint
+	Max2    uint `json:",omitempty"` // when set: MaxOperationCount of version 100, which becomes the current version at the "upgrade" action
 	NFiles  int
-	Actions []string // "add:<i>" | "tick" | "timeout"
+	Actions []string // "add:<i>" | "tick" | "timeout" | "upgrade"
 	Injects []inject
 	Faults  []string // "cas:<prepareCall>:<k>" | "anchor:<anchorCall>"
 }
@@ -130,7 +132,14 @@ func runSchedule(s *schedule) (evs []wev, ops map[string]opInfo, accepted map[st
 	p0, p1 := hx.BaseProtocol(), hx.BaseProtocol()
 	p0.GenesisTime, p1.GenesisTime = 0, 100
 	p0.MaxOperationCount, p1.MaxOperationCount = s.Max, s.Max
-	pc := hx.NewClient(&handlerVersion{p0, &countingHandler{h0, &prepareCalls}}, &handlerVersion{p1, &countingHandler{h1, &prepareCalls}})
+	var pc protocol.Client = hx.NewClient(&handlerVersion{p0, &countingHandler{h0, &prepareCalls}}, &handlerVersion{p1, &countingHandler{h1, &prepareCalls}})
+	upgraded := false
+	if s.Max2 != 0 {
+		// a protocol upgrade during the run: version 0 is the current one until the "upgrade" action, version 100 (with another
+		// MaxOperationCount) afterwards
+		p1.MaxOperationCount = s.Max2
+		pc = &upgradeClient{inner: hx.NewClient(&handlerVersion{p0, &countingHandler{h0, &prepareCalls}}, &handlerVersion{p1, &countingHandler{h1, &prepareCalls}}), upgraded: &upgraded}
+	}
 	w, err = batch.New(hx.Namespace, &writerCtx{pc: pc, a: anchor, q: q})
 	if err != nil {
 		return nil, nil, nil, nil, err
@@ -154,6 +163,10 @@ func runSchedule(s *schedule) (evs []wev, ops map[string]opInfo, accepted map[st
 			var i int
 			fmt.Sscan(a[4:], &i)
 			doAdd(i, "top-level")
+		case a == "upgrade" && s.Max2 != 0 && !upgraded:
+			upgraded = true
+			l.add(wev{Kind: "upgrade", N: int(s.Max2)})
+			stats["protocol_upgrades_during_run"]++
 		}
 	}
 	// faults stop; operations whose injection point was never reached are added now (they were submitted late)
@@ -181,6 +194,20 @@ func runSchedule(s *schedule) (evs []wev, ops map[string]opInfo, accepted map[st
 	}
 	return l.evs, ops, accepted, stats, nil
 }
+
+// upgradeClient reports version 0 as the current protocol version until the run's upgrade action.
+type upgradeClient struct {
+	inner    *hx.Client
+	upgraded *bool
+}
+
+func (c *upgradeClient) Current() (protocol.Version, error) {
+	if *c.upgraded {
+		return c.inner.Current()
+	}
+	return c.inner.Get(0)
+}
+func (c *upgradeClient) Get(t uint64) (protocol.Version, error) { return c.inner.Get(t) }
 
 // countingHandler counts PrepareTxnFiles calls across versions (fault plan addressing).
 type countingHandler struct {
@@ -237,6 +264,15 @@ func randomSchedule(r *hx.Rng) *schedule {
 				s.Actions = append(s.Actions, "tick")
 			}
 		}
+	}
+	if r.Chance(1, 4) {
+		// protocol upgrade with another batch size somewhere in the run
+		s.Max2 = uint(1 + r.Intn(4))
+		if s.Max2 == s.Max {
+			s.Max2 = s.Max + 1
+		}
+		at := r.Intn(len(s.Actions) + 1)
+		s.Actions = append(append(append([]string{}, s.Actions[:at]...), "upgrade"), s.Actions[at:]...)
 	}
 	for k := 0; k < r.Intn(3); k++ {
 		if r.Bool() {
@@ -317,7 +353,7 @@ func schedString(s *schedule) string {
 	for _, i := range s.Injects {
 		inj = append(inj, fmt.Sprintf("op%d@tick%d:%s#%d", i.Op, i.Tick, i.Point, i.Occ))
 	}
-	return fmt.Sprintf("max=%d files=%d ops=[%s] actions=%v injects=%v faults=%v", s.Max, s.NFiles, strings.Join(ops, " "), s.Actions, inj, s.Faults)
+	return fmt.Sprintf("max=%d max-after-upgrade=%d files=%d ops=[%s] actions=%v injects=%v faults=%v", s.Max, s.Max2, s.NFiles, strings.Join(ops, " "), s.Actions, inj, s.Faults)
 }
 
 func logStrings(evs []wev) []string {
@@ -441,9 +477,11 @@ func checkC16(c *hx.Ctx) {
 	c.Floor("batches_with_deferred", 10)
 	c.Floor("batches_with_expired", 10)
 	c.Floor("undersized_batches", 10)
+	c.Floor("protocol_upgrades_during_run", 50)
 	c.Floor("batches_version_0", 10)
 	c.Floor("batches_version_100", 10)
 	c.Floor("real_handler_runs", 10)
+	c.Floor("real_handler_runs_with_not_yet_valid_operation", 5)
 	c.Floor("real_handler_batches_read_back", 50)
 }
 
@@ -497,6 +535,27 @@ func realHandlerSlice(c *hx.Ctx) {
 	p := c13Proto(ref.SHA256)
 	p.MaxOperationCount = 3
 	bp := batchPool(r, ref.SHA256, 5, false)
+	// operations that are not yet valid: anchorFrom lies 100 ticks ahead of the virtual clock at submission time. The handler
+	// refuses the whole batch until the clock reaches anchorFrom (the batch is rolled back and retried), then anchors it
+	var early []*batchOp
+	for k := 0; k < 3; k++ {
+		cd, cr, err := NewCDid(r.Split(fmt.Sprint("early", k)), ref.SHA256, []string{"P-256"}, 300, false, genPatches(r, 2, newIDPool(r)), nil, "o", "")
+		if err != nil {
+			panic(err)
+		}
+		cd.Suffix = suffixOf(cr.Req, ref.SHA256)
+		var b *BuiltOp
+		if k == 2 {
+			b, err = cd.Deactivate(200, 0)
+		} else {
+			b, err = cd.Update(genPatches(r, 2, newIDPool(r)), 200, int64(k)*600)
+		}
+		if err != nil {
+			panic(err)
+		}
+		early = append(early, &batchOp{ID: fmt.Sprintf("early%d-%s", k, b.Desc.Type), Type: b.Desc.Type, Suffix: cd.Suffix, Req: b.Req, QOrigin: "o"})
+	}
+	bp = append(bp, early)
 	nRuns := c.N(150, 3000)
 	for run := 0; run < nRuns; run++ {
 		if c.Violations() > 8 {
@@ -532,7 +591,8 @@ func realHandlerSlice(c *hx.Ctx) {
 			}
 			return nil
 		}
-		v := hx.NewVersion(p, hx.VersionOpts{CAS: cas})
+		clock := &virtualClock{now: 100}
+		v := hx.NewVersion(p, hx.VersionOpts{CAS: cas, ParserOpts: []operationparser.Option{operationparser.WithAnchorTimeValidator(clock)}})
 		included := map[string][]string{}
 		pc := hx.NewClient(&handlerVersion{p, &recRealHandler{inner: v.Handler, log: l, yield: yield, ver: p.GenesisTime, included: included}})
 		w, err := batch.New(hx.Namespace, &writerCtx{pc: pc, a: anchor, q: q})
@@ -545,8 +605,12 @@ func realHandlerSlice(c *hx.Ctx) {
 		n := 2 + r.Intn(7)
 		var descr []string
 		usedReq := map[string]bool{}
+		withEarly := r.Chance(1, 3)
 		for k := 0; k < n; k++ {
 			d := r.Intn(3)
+			if withEarly && r.Chance(1, 3) {
+				d = len(bp) - 1 // a not-yet-valid operation
+			}
 			var cands []*batchOp
 			for _, o := range bp[d] {
 				if o.Until == 0 && !usedReq[o.ID] {
@@ -577,6 +641,13 @@ func realHandlerSlice(c *hx.Ctx) {
 		}
 		failAtWas := failAt
 		failAt, anchorFail = 0, 0
+		for id := range usedReq {
+			if strings.HasPrefix(id, "early") {
+				c.Count("real_handler_runs_with_not_yet_valid_operation")
+				break
+			}
+		}
+		atomic.StoreInt64(&clock.now, 250) // every anchorFrom has been reached: the retried batches must go through now
 		for k := 0; k <= n+1; k++ {
 			l.add(wev{Kind: "step.call", Force: true})
 			w.VerifProcessAvailable(true)
